@@ -48,6 +48,9 @@ RUNS = [
      "t": 0, "col": "reaction", "remove_aam": False},
     {"name": "B1+aam", "inputs": ["[CH3:1][C:2](=[O:3])[O:4][CH3:5]>>[CH3:1][C:2](=[O:3])[OH:4]"] + B1[:2], "bs": None,
      "t": 0, "col": "reaction"},
+    # thresholds 0.0002 below / above the confidence the batch's last MCS row really gets (they agree to three decimals)
+    {"name": "B1@c-", "inputs": B1, "bs": None, "t": ["near", 0, -0.0002], "col": "reaction"},
+    {"name": "B1@c+", "inputs": B1, "bs": None, "t": ["near", 0, 0.0002], "col": "reaction"},
     # the same reactions with other values in a pass-through column that is part of the requested output
     {"name": "B1+noteA", "inputs": B1, "bs": None, "t": 0, "col": "reaction", "extra_cols": ["note"],
      "notes": ["a1", "a2", "a3", "a4"]},
@@ -59,7 +62,7 @@ RUNS = [
     # result rows of an earlier (uncached) run of B1 fed back as input rows
     {"name": "B1-refed", "inputs": B1, "bs": None, "t": 0, "col": "reaction", "refeed_of": 0},
 ]
-QUICK_RUNS = [0, 1, 3, 4, 6, 9, 12, 13, 14, 15, 16, 17, 18, 19, 20]
+QUICK_RUNS = [0, 1, 3, 4, 6, 9, 12, 13, 14, 15, 16, 17, 18, 19, 20, 21, 22]
 
 _bal = {}
 _ref = {}
@@ -96,6 +99,22 @@ def _count_pipeline_calls(b):
 PIPE = {"n": 0}
 
 
+_near = {}
+
+
+def resolve_t(run):
+    """a threshold given as ['near', i, d] = (largest confidence in the uncached threshold-0 run of RUNS[i]) + d"""
+    t = run["t"]
+    if not isinstance(t, (list, tuple)):
+        return t
+    key = (t[1], t[2])
+    if key not in _near:
+        rows = reference(RUNS[t[1]])[0] or []
+        cs = [r.get("confidence") for r in rows if isinstance(r.get("confidence"), float)]
+        _near[key] = min(1.0, max(0.0, (max(cs) if cs else 0.5) + t[2]))
+    return _near[key]
+
+
 def do_run(run, cache_dir):
     """-> (rows view, stats, error)"""
     b = balancer(run["col"])
@@ -103,7 +122,7 @@ def do_run(run, cache_dir):
     pipe_before = PIPE["n"]
     b.cache = cache_dir is not None
     b.cache_dir = cache_dir
-    b.confidence_threshold = run["t"]
+    b.confidence_threshold = resolve_t(run)
     base_cols = _cols.setdefault(run["col"], list(b.columns))
     b.columns = base_cols + list(run.get("extra_cols", []))
     b.remove_aam = run.get("remove_aam", True)
@@ -388,11 +407,11 @@ def plan(tier, seed):
     shards = [{"histories": c} for c in common.stripe(hist, 8 if q else 30)]
     if q:
         shards += [{"crash": {"run": 0, "stride": 64}}, {"crash": {"run": 3, "stride": 97}},
-                   {"crash": {"run": 19, "stride": 211}},
+                   {"crash": {"run": 21, "stride": 211}},
                    {"kill": {"run": 0, "ks": 8}}, {"kill": {"run": 3, "ks": 6}},
                    {"kill": {"run": 0, "ks": 30, "mode": "line"}}, {"kill": {"run": 3, "ks": 30, "mode": "line"}}]
     else:
-        shards += [{"crash": {"run": i, "stride": 1 if i in (0, 3) else 7}} for i in (0, 1, 3, 5, 6, 9, 10, 19)]
+        shards += [{"crash": {"run": i, "stride": 1 if i in (0, 3) else 7}} for i in (0, 1, 3, 5, 6, 9, 10, 21)]
         shards += [{"kill": {"run": 0, "ks": "all"}}, {"kill": {"run": 3, "ks": "all"}},
                    {"kill": {"run": 6, "ks": 60}}, {"kill": {"run": 10, "ks": 60}},
                    {"kill": {"run": 0, "ks": "all", "mode": "line"}}, {"kill": {"run": 3, "ks": "all", "mode": "line"}},
